@@ -355,6 +355,19 @@ Proof.
   intros x l E. apply Hpar. eapply Hp. exact E.
 Qed.
 
+Lemma fn_ok_sound f s1 s2 :
+  fn_ok f = true -> wf s1 ->
+  (forall x l, env s1 x = Some l -> In x (f_params f)) ->
+  exec (f_body f) s1 s2 ->
+  forall l, l < next s1 -> heap s2 l = heap s1 l.
+Proof.
+  unfold fn_ok. intros H W Hp Hex.
+  apply andb_prop in H. destruct H as [H Hok]. apply andb_prop in H. destruct H as [Hpar Hinc].
+  rewrite allin_spec in Hpar, Hinc.
+  apply (analysis_sound (f_own f) (f_reach f) (f_body f) s1 s2); auto.
+  intros x l E. apply Hpar. eapply Hp. exact E.
+Qed.
+
 (* ------------------------------------------------------------------ deep snapshots *)
 Lemma snap_unchanged (h1 h2 : loc -> obj) (n : loc) :
   (forall l, l < n -> h2 l = h1 l) ->
